@@ -170,10 +170,20 @@ def genotype(
     elif profile_name == "pgrnseq-v3":
         profile_name = "pgx3"
 
+    def load_sample(*args, **kwargs):
+        try:
+            return sam.Sample(*args, **kwargs)
+        except AldyException:
+            # Keep the one-line-per-gene format of the simple output for rejected samples
+            if is_simple or (output_file and output_file.name.endswith(".simple")):
+                name = os.path.basename(sam_path).split(".")[0]
+                print(name, gene.name, "", sep="\t", file=output_file)
+            raise
+
     if kind in ["vcf", "pscan"]:
         log.warn("WARNING: Using VCF file. Copy-number calling is not available.")
         profile = Profile("user_provided", cn_solution=["1", "1"], **params)
-        sample = sam.Sample(gene, profile, sam_path, debug=debug)
+        sample = load_sample(gene, profile, sam_path, debug=debug)
     else:
         if cn_solution:
             profile = Profile("user_provided", cn_solution=cn_solution, **params)
@@ -183,7 +193,7 @@ def genotype(
             profile = Profile.load(gene, profile_name, cn_region, **params)
         else:
             profile = None
-        sample = sam.Sample(gene, profile, sam_path, reference, debug)
+        sample = load_sample(gene, profile, sam_path, reference, debug)
     profile = sample.profile  # if loaded for a dump
     assert profile, "Profile not set"
     if kind == "dump":
